@@ -192,11 +192,18 @@ def check_wiring(report, facts, rule, compressed, doc_text):
     syntax, _ = docs.instruction_syntax(doc_text)
     tables = facts.instruction_tables()
     sums = all_summaries(facts)
+    all_arms, else_outs = parse_item_outcomes(facts)
+    opaque_returns = [o for _, _, outs_ in list(all_arms) + [(None, None, else_outs)] for o in outs_
+                      if o.kind == 'return' and (o.cls is None or o.cls not in facts.classes)]
     for tname, table in tables.items():
         mns = [m for m in table if m.startswith('c.') == compressed]
         if not mns:
             continue
         outs = table_outcomes.get(tname)
+        if outs is None and opaque_returns:
+            o = opaque_returns[0]
+            raise AnalysisError('parse_item returns a value the token flow cannot follow ({}): whether {} is consulted is not '
+                                'understood'.format(unparse(o.node).split('\n')[0], tname))
         if outs is None:
             report.fail(Finding(rule, 'parse_item', 'no arm for ' + tname,
                                 'mnemonic table {} is never consulted by parse_item: {} cannot be written'.format(tname, mns),
@@ -230,6 +237,8 @@ def check_wiring(report, facts, rule, compressed, doc_text):
                 bound[k] = v
             # name parameter
             nm = bound.get('name')
+            if nm is not None and nm[0] not in ('tok', 'tokend', 'lower', 'const', 'imm', 'int', 'rest', 'list', 'line'):
+                raise AnalysisError('parse_item: how the name field of {} is filled is not understood: {}'.format(cls, nm))
             if nm != ('lower', ('tok', 0)) and nm != ('tok', 0):
                 report.fail(Finding(rule, 'parse_item', o.node, '{}: the mnemonic token does not reach the name field'.format(cls),
                                     line=o.node.lineno))
